@@ -18,7 +18,8 @@ RULE = ("plain, continuous and grid environments; a pool of agent objects with d
         "strict get_agent / len / iterate / get_agents with rejections dup (same object, other object), unknown "
         "(remove, strict lookup) and oob(axis, side, near|far) generated against the current state; non-trivial = >=3 "
         "residents at some point, >=1 removal from the middle followed by iteration and >=2 different rejection kinds "
-        "fired; distinct = sequence of (op, outcome, population)")
+        "fired; distinct = sequence of (op, outcome, population)"
+        "; also: continuous extents in (0,1), fractional out-of-bounds coordinates in grids, worlds that are not model.environment, an environment without any model, callers that edit returned listings / use the random helpers, model lifecycle ops")
 COMPONENTS = {"real": ["ECAgent.Core.Environment add_agent / remove_agent / get_agent / get_agents / __len__ / __iter__",
                        "SpaceWorld / DiscreteWorld / GridWorld / LineWorld add_agent / remove_agent",
                        "SystemManager component pools (observed)"],
